@@ -149,7 +149,7 @@ CHECKS["C16"] = {
     "level_note": "Trusted: failpoints pipelinedMemDBMinFlushKeys/Size only lower the thresholds. Iteration APIs are unsupported by the pipelined buffer by design and not exercised.",
     "tests": [
         {"name": "TestPipelinedBuffer", "quick": 3000, "thorough": 30000, "shards": 8},
-        {"name": "TestPipelinedTxn", "quick": 400, "thorough": 600, "shards": 8, "timeout_q": 400},
+        {"name": "TestPipelinedTxn", "quick": 400, "thorough": 1500, "shards": 4, "timeout_q": 400},
     ],
 }
 
